@@ -531,6 +531,40 @@ class Unit:
             if cnt == 0:
                 raise LostAnchor("rewrite %r matched nothing in %s" % (rw['from'], path))
 
+        # ---- N3b: every field of an extracted struct is made `pub` (visibility only; open spec fns must name the fields)
+        if f.get('pub_fields'):
+            for it in kept:
+                if not re.match(r'^(pub(\([a-z]+\))? )?struct\b', it['key']):
+                    continue
+                if it['body_open'] is not None:
+                    body_a, body_b = it['body_open'] + 1, it['b'] - 1
+                    for fm in re.finditer(r'(?m)^(\s*)([A-Za-z_][A-Za-z0-9_]*)\s*:', text[body_a:body_b]):
+                        pos = body_a + fm.start(2)
+                        if mask[pos] and not text[body_a + fm.start():pos].strip():
+                            ed.add(pos, pos, 'pub ', 'N3b')
+                            self.rule('N3b', path, line_of(text, pos), 'field `%s` made pub' % fm.group(2))
+                else:
+                    # tuple struct: `struct X(T, U);`
+                    k = text.find('(', it['hdr_a'], it['b'])
+                    if k >= 0:
+                        e = match_brace(text, k)
+                        depth = 0
+                        start = k + 1
+                        i = k + 1
+                        while i < e:
+                            ch = text[i]
+                            if ch in '(<[':
+                                depth += 1
+                            elif ch in ')>]':
+                                depth -= 1
+                            if (ch == ',' and depth == 0) or i == e - 1:
+                                seg = text[start:i]
+                                if seg.strip() and not seg.strip().startswith('pub'):
+                                    p2 = start + (len(seg) - len(seg.lstrip()))
+                                    ed.add(p2, p2, 'pub ', 'N3b')
+                                    self.rule('N3b', path, line_of(text, p2), 'tuple field made pub')
+                                start = i + 1
+                            i += 1
         # ---- T1: `impl<'a> TryFrom<&'a [u8]> for X<'a>` -> inherent `impl<'a> X<'a> { pub fn try_from }` (body verbatim)
         if f.get('tryfrom_inherent'):
             for it in kept:
@@ -779,7 +813,23 @@ class Unit:
             # combine into sequential zero-width edits: Edits.render sorts by (a,b) stable → keep order
             for (t, tag) in pieces:
                 ed.edits.append((ins, ins, t, tag))
-        self.obl['safety:' + qname] = dict(owner=ov.get('safety_owner', f.get('safety_owner')), label='safety',
+        # who owns proof steps / body obligations of this function: its safety owner, the owners of its own clauses, and
+        # (for a trait impl method) the owners of the clauses on the trait method declaration it must satisfy
+        own = set()
+        so = ov.get('safety_owner', f.get('safety_owner'))
+        for o in ([so] if isinstance(so, str) else (so or [])):
+            own.add(o)
+        for e in ens:
+            for o in ([e['owner']] if isinstance(e['owner'], str) else e['owner']):
+                own.add(o)
+        if ' for ' in item_key:
+            for fo in self.fn_overlays:
+                if fo['name'] == name and 'trait' in fo.get('item', ''):
+                    for e in fo.get('ensures', []):
+                        for o in ([e['owner']] if isinstance(e['owner'], str) else e['owner']):
+                            own.add(o)
+        body_owner = sorted(own)
+        self.obl['safety:' + qname] = dict(owner=body_owner, label='safety',
                                            fn=qname, kind='safety', assumed=(mode != 'verify'))
         # loops
         if sub['body_open'] is not None and not (forced and ov.get('mode', 'verify') == 'verify'):
@@ -800,7 +850,7 @@ class Unit:
                 if text[brace] != '{':
                     raise LostAnchor("loop header must end with '{': %r" % hdr)
                 tag = tagbase + 'loop%d' % (li + 1)
-                self.obl[tag] = dict(owner=lp.get('owner', ov.get('safety_owner', f.get('safety_owner'))),
+                self.obl[tag] = dict(owner=lp.get('owner', body_owner),
                                      label='loop%d' % (li + 1), fn=qname, kind='inv')
                 ed.edits.append((brace, brace, '\n' + lp['clauses'].rstrip() + '\n', tag))
                 if lp.get('iter_name'):
@@ -811,7 +861,7 @@ class Unit:
             for hi, h in enumerate(ov.get('hint', [])):
                 occ = h.get('occurrence', 1)
                 tag = tagbase + 'hint%d' % (hi + 1)
-                self.obl[tag] = dict(owner=h.get('owner', ov.get('safety_owner', f.get('safety_owner'))),
+                self.obl[tag] = dict(owner=h.get('owner', body_owner),
                                      label='hint%d' % (hi + 1), fn=qname, kind='hint')
                 anchor = h.get('after', h.get('before', h.get('replace')))
                 try:
